@@ -29,7 +29,7 @@ def P(pid, **kw):
 
 
 P('C01', claimed=True, needs_driver=True, level='other',
-  contracts=['synth_specialindex', 'synth_ugen', 'synth_optimizer', 'synth_synthdef_graph'], drivers=['vf.drivers.C01'],
+  contracts=['synth_specialindex', 'synth_ugen', 'synth_optimizer', 'synth_synthdef_graph', 'synth_finish'], drivers=['vf.drivers.C01'],
   level_text=('Discharged: the opcode numbers of every operator name and Python alias, and the selector each '
               'AbstractObject operator method passes (exhaustive finite obligations on the real tables); the '
               'constructor-time algebraic short-cuts and rate inference of the operator units for all operand '
@@ -56,7 +56,7 @@ P('C01', claimed=True, needs_driver=True, level='other',
   unreached=['acceptance by a real scsynth'])
 
 P('C02', claimed=True, needs_driver=True, level='other',
-  contracts=['synth_fmtrw', 'synth_writer', 'synth_synthdef_graph', 'synth_toposort', 'synth_outputs', 'synth_defwriter'], drivers=['vf.drivers.C02'],
+  contracts=['synth_fmtrw', 'synth_writer', 'synth_synthdef_graph', 'synth_toposort', 'synth_outputs', 'synth_defwriter', 'synth_finish'], drivers=['vf.drivers.C02'],
   level_text=('Discharged (pyvc, all inputs): byte lengths and value ranges of the primitive writers; the field '
               'sequence a unit writes (SynthObject._write_def: name, rate number, input count, output count, '
               'special index as i16, then exactly one input spec per input in order, then the output specs - '
@@ -80,7 +80,11 @@ P('C02', claimed=True, needs_driver=True, level='other',
               'whole definitions (complete parse as one SCgf-2 definition, wires refer to earlier units/'
               'existing constants, width-first ordering, consistent counts, acceptance by the library reader '
               'incl. every output unit the source creates, rejection of invalid graphs) with an independent '
-              'reader.'),
+              'reader. Also discharged: the finishing phases (SynthDef._finish_build: copies, optimisation, constants, '
+              'input check, sort and LAST re-indexing, each once in that order; _optimize_graph over a copy of the table with '
+              'the rewrite flag up, removed units leaving the table, re-indexing iff it shrank; _collect_constants and '
+              '_check_inputs ask EVERY unit and never lose a complaint; _write_constants writes the count and the constants '
+              'in slot order) and the definition record itself (SynthDef._write_def: see C04).'),
   level_note=('SynthDef._write_def (controls, name table, variants), _write_constants, the topological sort and '
               'the reader of whole definitions are bounded only. The primitive writers are replaced by ghost '
               'trace events in the unit-level contracts (their own contracts are proved separately). Trusted: '
